@@ -19,7 +19,6 @@ import (
 	"encoding/binary"
 	"errors"
 	"fmt"
-	"io"
 	"net"
 	"sync/atomic"
 	"testing"
@@ -358,7 +357,6 @@ func TestVerifC11(t *testing.T) {
 		}
 		h.coordinator.Stop()
 	}
-	_ = io.Discard
 }
 
 // vC11WouldPanic re-runs a case in-process on its own fixture (used only when the work is
